@@ -191,7 +191,7 @@ def main(argv=None):
             unexplored_prefixes=total["unexplored_prefixes"],
             inconclusive_assertions=total["inconclusive"], inconclusive_list=total["inconclusive_list"],
             timed_out_branch_queries=st_.get("timed_out_branches", 0),
-            assertions_by_clause=total["claims_by_clause"],
+            assertions_by_clause=total["claims_by_clause"], paths_by_shape=total["paths_by_shape"],
             counterexamples_found=total["cex"], counterexample_signatures=len(total["cands"]),
             counterexamples_reproduced_natively=reproduced,
             counterexamples_not_reproduced=[dict(key=k, attempts=d) for k, d in unreplayed][:10],
@@ -219,6 +219,9 @@ def main(argv=None):
           f"unexplored={total['unexplored_prefixes']} witnesses_ok={total['witnesses_ok']} "
           f"diverged={total['witnesses_diverged']} mismatch={total['witnesses_mismatch']} "
           f"queries={st_.get('queries', 0)} solver_s={st_.get('solver_s', 0):.1f} wall={wall:.1f}s")
+    if args.verbose:
+        for k, v in sorted(total["paths_by_shape"].items(), key=lambda kv: -kv[1]):
+            print(f"  {v:8d} paths  {k}")
     for key, k in known_hits:
         print(f"KNOWN-FINDING: property={prop} {k['what']} [{key}]")
     rc = EXIT_OK
